@@ -12,13 +12,14 @@ import (
 
 func c02Opts(rt *rapid.T, s *vh.Session) gen.Opts {
 	return gen.Opts{
-		MaxDepth:     rapid.IntRange(2, 5).Draw(rt, "maxdepth"),
-		SamePkg:      rapid.IntRange(0, 2).Draw(rt, "samepkg") == 0,
-		Flags:        rapid.Bool().Draw(rt, "flags"),
-		Arrays:       true,
-		ArraysAssign: !s.Open("F-ARRAY-ASSIGN"),
-		Unexported:   rapid.Bool().Draw(rt, "unexported"),
-		MaxFields:    4,
+		MaxDepth:      rapid.IntRange(2, 5).Draw(rt, "maxdepth"),
+		SamePkg:       rapid.IntRange(0, 2).Draw(rt, "samepkg") == 0,
+		Flags:         rapid.Bool().Draw(rt, "flags"),
+		Arrays:        true,
+		ArraysAssign:  !s.Open("F-ARRAY-ASSIGN"),
+		Unexported:    rapid.Bool().Draw(rt, "unexported"),
+		MaxFields:     4,
+		CompositeKeys: true,
 	}
 }
 
